@@ -242,6 +242,36 @@ def probe_after(c, srv, t, n, history, probe_file):
     if not ok:
         c.violation("C06:capacity-reduced", "with %d idle connections open, a further request is not answered on a %d-worker server (%s)" % (n - 1, n, end), rp)
         return False
+    # (e) the same with N-1 peers that requested a large file and do not read it (their workers are blocked in write):
+    # one more request must still be answered while they are connected
+    if n >= 2 and BIG in t.files:
+        stalled = []
+        ok2, end2 = False, "-"
+        try:
+            for _ in range(n - 1):
+                s = srv.connect()
+                s.setsockopt(socket.SOL_SOCKET, socket.SO_RCVBUF, 4096)
+                s.sendall(BIGREQ)
+                stalled.append(s)
+            time.sleep(0.15)
+            for attempt in range(2):
+                data, end2 = srv.request(("GET %s HTTP/1.1\r\nHost: x\r\n\r\n" % probe_file).encode(), timeout=15)
+                r = httpstrict.parse(data)
+                if r.status == 200 and r.body == t.files[probe_file]:
+                    ok2 = True
+                    break
+        except OSError:
+            pass
+        finally:
+            for s in stalled:
+                try:
+                    s.close()
+                except OSError:
+                    pass
+        c.count("probes_with_stalled_readers")
+        if not ok2:
+            c.violation("C06:capacity-reduced:stalled-readers", "with %d peers that do not read a 4 MiB response, a further request is not answered on a %d-worker server (%s)" % (n - 1, n, end2), rp)
+            return False
     quiesce(srv)
     return True
 
@@ -349,6 +379,8 @@ def engine_a(c, t, rng, valid, crashers, mutants):
         for i, (name, cs) in enumerate(jobs):
             cs.id = "j%d" % i
             lines.append(cs.line())
+        # ... and jobs that panic with every kind of payload; then scenario 2: a rendezvous of N on the same pool
+        lines.append("pk%d panicky %d 0" % (n, 24))
         lines.append("rv%d rendezvous %d %d" % (n, n, (rng.u64() >> 1) | 1))
         rc, err, scns = c07.run_pool(vh, n, "\n".join(lines) + "\n", watchdog=4, env=None, timeout=300)
         c.ev()
